@@ -589,7 +589,7 @@ pub fn scenario(g: &GenCfg) -> BoxedStrategy<Scenario> {
                         spec,
                         disable_nonce_check: dnc,
                         basefee,
-                        world: World { eoas, contracts, beneficiary },
+                        world: World { eoas, contracts, beneficiary, placed: vec![] },
                         txs,
                         grevm: GrevmCfg { concurrency, ..Default::default() },
                         faults: facade_fault.map(|key| vec![Fault { key, mode: FaultMode::Persistent }]).unwrap_or_default(),
@@ -868,7 +868,7 @@ pub fn destroy_race_scenario(g: &GenCfg) -> BoxedStrategy<Scenario> {
     g2.fund_pm = 0;
     g2.min_txs = 4;
     g2.max_txs = g.max_txs.max(6);
-    (scenario(&g2), 0u8..4, any::<bool>(), any::<bool>(), 0u8..4, proptest::collection::vec(0u8..3, 6), 0u8..INIT_KINDS, 0u8..2)
+    (scenario(&g2), 0u8..4, any::<bool>(), any::<bool>(), 0u8..6, proptest::collection::vec(0u8..3, 6), 0u8..INIT_KINDS, 0u8..2)
         .prop_map(|(mut sc, guard, polarity, final_destroys, variant, gaps, init, salt)| {
             if sc.txs.len() < 4 || sc.world.eoas.len() < 3 {
                 return sc;
@@ -888,8 +888,12 @@ pub fn destroy_race_scenario(g: &GenCfg) -> BoxedStrategy<Scenario> {
                 // conditional CREATE2 (init code may write storage)
                 2 => (Stmt::Create { create2: true, salt, init, value: 0, store: Some((guard + 2) % 5) }, created.clone()),
                 // destroy, then re-create something else in the same transaction
-                _ => (Stmt::Call { kind: CallKind::Call, target: AddrRef::Con(1), value: 0, sel: 1, arg: None, small_gas: false, store: Some((guard + 2) % 5) }, AddrRef::Con(1)),
+                3 => (Stmt::Call { kind: CallKind::Call, target: AddrRef::Con(1), value: 0, sel: 1, arg: None, small_gas: false, store: Some((guard + 2) % 5) }, AddrRef::Con(1)),
+                // a PRE-STATE contract with storage lives at the CREATE2 address: calling it destroys
+                // it (its runtime is the self-destructor), a later routine re-creates it
+                _ => (Stmt::Call { kind: CallKind::Call, target: created.clone(), value: 0, sel: 0, arg: None, small_gas: false, store: None }, created.clone()),
             };
+            let placed_variant = variant >= 4;
             let probe = vec![
                 Stmt::Call { kind: CallKind::Call, target: probe_target.clone(), value: 0, sel: 0, arg: None, small_gas: false, store: Some(pslot) },
                 Stmt::SStore((guard + 3) % 5, Expr::Add(Box::new(Expr::ExtCodeSize(probe_target.clone())), Box::new(Expr::Balance(probe_target)))),
@@ -897,8 +901,22 @@ pub fn destroy_race_scenario(g: &GenCfg) -> BoxedStrategy<Scenario> {
             sc.world.contracts[0] = ContractDef {
                 balance: Bal::Zero,
                 storage: vec![(guard, g0)],
-                code: Code::Routines(vec![vec![Stmt::SStore(guard, Expr::Const(g1))], vec![Stmt::If(cond, vec![action], vec![])], probe, vec![Stmt::SStore(guard, Expr::Const(g0))]]),
+                code: Code::Routines(vec![
+                    vec![Stmt::SStore(guard, Expr::Const(g1))],
+                    vec![Stmt::If(cond, vec![action], vec![])],
+                    probe,
+                    vec![Stmt::SStore(guard, Expr::Const(g0))],
+                    // re-create at the CREATE2 address (fails with a collision while something lives there)
+                    vec![Stmt::Create { create2: true, salt, init, value: 0, store: Some((guard + 2) % 5) }],
+                ]),
             };
+            if placed_variant {
+                sc.world.placed = vec![PlacedDef { at: created.clone(), balance: Bal::Wei(3), storage: vec![(0, 5), (1, 9), (3, 2)], runtime: 1 }];
+                // re-creation needs the account to be really gone: pre-Cancun self-destruct
+                if sc.spec >= SPEC_CANCUN {
+                    sc.spec = SPEC_SHANGHAI;
+                }
+            }
             let victim = ContractDef {
                 balance: Bal::Wei(5),
                 storage: vec![(0, 3), (1, 4)],
@@ -921,7 +939,7 @@ pub fn destroy_race_scenario(g: &GenCfg) -> BoxedStrategy<Scenario> {
             let n = sc.txs.len();
             let ne = sc.world.eoas.len() as u8;
             // roles: setter, conditional action, probe, (probe again)
-            let roles = [0u8, 1, 2, 2];
+            let roles = if placed_variant { [0u8, 1, 4, 2] } else { [0u8, 1, 2, 2] };
             let mut pos = 0usize;
             let mut role_pos = [usize::MAX; 4];
             for (k, sel) in roles.iter().enumerate() {
